@@ -100,3 +100,60 @@ Proof.
   pose proof (check_verdict find rc files o Hne Hnp Hnh Hst) as H. cbv zeta in H.
   rewrite (expected_missing_canonical (rc_cfg rc) (o_rfail2 o) files specs 0 Ht Hr) in H. exact H.
 Qed.
+
+(* ------------------------------------------------------------------------------------------ *)
+(* round trip at a statement of the canonical language: what is inserted is what is read back  *)
+(* ------------------------------------------------------------------------------------------ *)
+From Breadlog Require Import Proofs.RegexFacts Proofs.RoundTrip Proofs.DecimalFacts Proofs.RuleLemmas.
+
+Lemma render_msg_chars t : render_msg (map MChar t) = t.
+Proof. induction t as [|c t IH]; cbn [map render_msg render_unit app]; [reflexivity|]. rewrite IH. reflexivity. Qed.
+
+Lemma render_msg_app a b : render_msg (a ++ b) = (render_msg a ++ render_msg b)%list.
+Proof. induction a as [|u a IH]; cbn [app render_msg]; [reflexivity|]. rewrite IH, app_assoc. reflexivity. Qed.
+
+(* message style: the statement whose message begins with the token [ref: id] -- wherever it stands, whatever
+   the rest of the file is -- is read back, when it is reported at all, with exactly that id *)
+Theorem stmt_token_roundtrip cfg code pre n l us id :
+  id <= u32_max ->
+  forall e, In e (step_entries (stmt_step cfg code pre n l (map MChar (default_token id) ++ us))) ->
+            e_kind e = KString -> e_ref e = Some id.
+Proof.
+  intros Hid e Hin Hk. unfold stmt_step in Hin.
+  destruct (directive_check the_params (p_ignore the_params) code (blen pre) (p_comment_re the_params)) as [[|]|];
+    cbn [step_entries In] in Hin; try contradiction.
+  destruct (negb (macro_of_interest (render_name n) cfg)); cbn [step_entries In] in Hin; try contradiction.
+  destruct (if cfg_structured cfg then _ else _) as [nk|]; cbn [step_entries In] in Hin; try contradiction.
+  destruct (cfg_structured cfg && negb nk); cbn [step_entries In] in Hin; destruct Hin as [<-|[]].
+  - cbn [e_kind] in Hk. discriminate.
+  - cbn [e_ref]. rewrite render_msg_app, render_msg_chars. apply extract_reference_token. exact Hid.
+Qed.
+
+(* structured style: a first key-value  ref = id ,  (what an edit run inserts when other key-values exist, and
+   with ";" when none do): the statement is read back with exactly that id, from that key-value *)
+Definition ref_core (id : N) (comma : bool) : kvcore :=
+  mkKv (mkId 114 [101; 102]) ([32], []) None
+       (Some (([32], []), mkVal (match dec id with d0 :: ds => VDigits d0 ds | [] => VDigits 48 [] end) [], no_lay)) comma.
+
+Theorem stmtA_ref_roundtrip cfg code pre n a id comma more lsemi lafter :
+  id <= u32_max -> a_kvs a = Some (ref_core id comma, more, lsemi, lafter) ->
+  forall e, In e (step_entries (stmt_stepA cfg code pre n a)) ->
+            e_kind e <> KString -> e_kind e = KStructuredPreExisting /\ e_ref e = Some id.
+Proof.
+  intros Hid Hkv e Hin Hk. unfold stmt_stepA in Hin. rewrite Hkv in Hin.
+  destruct (directive_check the_params (p_ignore the_params) code (blen pre) (p_comment_re the_params)) as [[|]|];
+    cbn [step_entries In] in Hin; try contradiction.
+  destruct (negb (macro_of_interest (render_name n) cfg)); cbn [step_entries In] in Hin; try contradiction.
+  destruct (if cfg_structured cfg then _ else _) as [nk|]; cbn [step_entries In] in Hin; try contradiction.
+  destruct (cfg_structured cfg && negb nk).
+  - cbn [cores_of ref_more] in Hin. unfold ref_core at 1 2 in Hin. cbn [k_val k_key k_l1 k_mod] in Hin.
+    replace (text_eqb (key_span_text (ref_core id comma)) (p_ref_key the_params)) with true in Hin by reflexivity.
+    cbn [step_entries In] in Hin. destruct Hin as [<-|[]]. cbn [e_kind e_ref]. split; [reflexivity|].
+    destruct (dec_spec id) as (Hne & _ & _).
+    assert (Hspan : value_span (mkVal (match dec id with d0 :: ds => VDigits d0 ds | [] => VDigits 48 [] end) []) no_lay
+                    = (dec id ++ [] ++ [])%list).
+    { unfold value_span, render_value. cbn [v_tl v_first render_tl]. destruct (dec id) as [|d0 ds]; [congruence|].
+      cbn [render_first render_lay no_lay fst snd render_groups app]. rewrite !app_nil_r. reflexivity. }
+    rewrite Hspan. apply (ref_value_with_layout id [] []); [exact Hid|reflexivity|left; reflexivity].
+  - cbn [step_entries In] in Hin. destruct Hin as [<-|[]]. cbn [e_kind] in Hk. congruence.
+Qed.
